@@ -30,7 +30,7 @@ def draw_config(rng):
         "clock": {"kind": rng.choice(CLOCK_KINDS), "start": 1.7e9, "salt": rng.randrange(1, 1 << 30)},
         "stdout": {"kind": rng.choice(STDOUT_KINDS)},
         "logger": {"kind": rng.choice(["default", "default", "error_level", "raising_handler", "debug_level"])},
-        "warnings": {"kind": "error" if rng.random() < 0.15 else "always"},
+        "warnings": {"kind": rng.choice(["always"] * 8 + ["error", "error", "error_sparse"])},
         "numpy_print": {"kind": rng.choice(["default"] * 8 + ["precision3", "formatter", "threshold", "legacy113", "legacy113"])},
     }
 
